@@ -3,6 +3,7 @@ package c06
 import (
 	"bytes"
 	"fmt"
+	"math/big"
 	"strings"
 
 	"github.com/canopy-network/canopy/fsm"
@@ -455,16 +456,44 @@ func runCrossChain(o *drv.Out, fo *failOnce) {
 	}
 }
 
-// runWindow: created-height window at several chain heights, for fresh transactions and for a
-// re-encoding of an included one.
+// runWindow: the created-height acceptance window, over memo kind x key kind x created height
+// (inside, both boundaries, just outside, far outside, on both sides) at several chain heights.
+// Oracle: a transaction created outside [height-R, height+R] does not execute — unless it is an
+// RLP.V2 wrapper, whose replay protection is the account nonce (probed in runRLP).
 func runWindow(o *drv.Out, fo *failOnce) {
-	k, err := newSigner("ed25519", "sender")
-	if err != nil {
-		panic(err)
-	}
 	R := uint64(fsm.BlockAcceptanceRange)
-	type probe struct{ height, created uint64 }
+	type memoKind struct{ name, memo string }
+	memos := []memoKind{{"empty", ""}, {"text", "hello"}, {"RLP", lib.RLPIndicator}, {"RLP.V2", lib.RLPV2Indicator},
+		{"order-json", `{"orderId":"00aa00aa00aa00aa00aa00aa00aa00aa00aa00aa","chain_id":2,"buyerSendAddress":"aa"}`}}
+	signers := map[string]*signer{}
+	for _, sc := range schemes {
+		k, err := newSigner(sc, "sender")
+		if err != nil {
+			panic(err)
+		}
+		signers[sc] = k
+	}
+	type probe struct {
+		height, created uint64
+		scheme          string
+		memo            memoKind
+	}
 	var probes []probe
+	// (1) every memo kind x every key kind x the two boundaries, just outside and far outside
+	h0 := uint64(3 * R)
+	createds := []uint64{1, h0 - R - 1, h0 - R, h0 + R, h0 + R + 1}
+	if o.Tier == "thorough" {
+		createds = append(createds, h0-2*R, h0, h0+10*R, 1<<40)
+	}
+	for _, mk := range memos {
+		for _, sc := range schemes {
+			for _, c := range createds {
+				probes = append(probes, probe{h0, c, sc, mk})
+			}
+		}
+	}
+	// (2) boundary arithmetic at small / large heights; memo and key kind cycle
+	n := 0
 	for _, h := range []uint64{2, 100, R - 1, R, R + 1, R + 2, 10000, 1 << 40} {
 		cands := []uint64{1, 2, h, h + R - 1, h + R, h + R + 1, h + 2*R}
 		if h > R {
@@ -475,11 +504,17 @@ func runWindow(o *drv.Out, fo *failOnce) {
 		}
 		for _, c := range cands {
 			if c >= 1 {
-				probes = append(probes, probe{h, c})
+				probes = append(probes, probe{h, c, schemes[n%len(schemes)], memos[(n/len(schemes))%len(memos)]})
+				n++
 			}
 		}
 	}
-	for i := 0; i < 40; i++ {
+	// (3) seeded
+	rnd := 20
+	if o.Tier == "thorough" {
+		rnd = 200
+	}
+	for i := 0; i < rnd; i++ {
 		h := 2 + uint64(o.Rng.Intn(30000))
 		c := uint64(1)
 		switch o.Rng.Intn(3) {
@@ -492,21 +527,47 @@ func runWindow(o *drv.Out, fo *failOnce) {
 		default:
 			c = 1 + uint64(o.Rng.Intn(40000))
 		}
-		probes = append(probes, probe{h, c})
+		probes = append(probes, probe{h, c, schemes[o.Rng.Intn(len(schemes))], memos[o.Rng.Intn(len(memos))]})
 	}
 	rcp := crypto.NewAddressFromBytes(recipient)
 	for i, p := range probes {
-		s := newScenario(o, fmt.Sprintf("window-h%d-created%d", p.height, p.created), netID, chainID, []genesisAccount{{k.addr, funds}, {recipient, 0}})
+		k := signers[p.scheme]
+		s := newScenario(o, fmt.Sprintf("window-%s-%s-h%d-created%d", p.scheme, p.memo.name, p.height, p.created), netID, chainID, []genesisAccount{{k.addr, funds}, {recipient, 0}})
 		s.declareKey(k)
 		fee := s.c.minSendFee()
 		// an empty block so that the store has a block at height 1 and the FSM is at height 2
 		s.block(nil, true)
-		tx, raw, err := signedSend(k, recipient, amount, netID, chainID, fee, p.created, txTime+uint64(i), "", 0)
-		if err != nil {
-			panic(err)
+		var raw []byte
+		created := p.created
+		isWrapper := p.scheme == "ethsecp256k1" && lib.IsRLPMemo(p.memo.memo)
+		if isWrapper {
+			// a genuine Ethereum wrapper: legacy RLP carries the eth nonce as created height, RLP.V2 a sentinel
+			v2 := p.memo.memo == lib.RLPV2Indicator
+			evm := fsm.CanopyIdsToEVMChainId(chainID, netID)
+			if v2 {
+				evm, _ = fsm.CanopyIdsToEVMChainIdV2(chainID, netID)
+			}
+			eth := signedEthTx(k, evm, ethTxSpec{nonce: p.created, gas: 21000, gasPrice: new(big.Int).Add(scale, big.NewInt(int64(i))), value: new(big.Int).Mul(big.NewInt(int64(amount)), scale)}, recipient)
+			r, ok := s.declareRLP(v2, eth)
+			if !ok {
+				s.c.close()
+				continue
+			}
+			raw = r
+			tx := new(lib.Transaction)
+			if err := lib.Unmarshal(raw, tx); err != nil {
+				panic(err)
+			}
+			created = tx.CreatedHeight
+		} else {
+			tx, r, err := signedSend(k, recipient, amount, netID, chainID, fee, p.created, txTime+uint64(i), p.memo.memo, 0)
+			if err != nil {
+				panic(err)
+			}
+			raw = r
+			sb, _ := tx.GetSignBytes()
+			s.declareSig(k, sb, tx.Signature.Signature)
 		}
-		sb, _ := tx.GetSignBytes()
-		s.declareSig(k, sb, tx.Signature.Signature)
 		s.setHeight(p.height)
 		before, _ := s.c.account(rcp)
 		s.block([][]byte{raw}, false)
@@ -515,16 +576,21 @@ func runWindow(o *drv.Out, fo *failOnce) {
 		if p.height > R {
 			lo = p.height - R
 		}
-		outside := p.created > p.height+R || p.created < lo
-		if outside && after > before {
-			fo.fail("C06:window-not-enforced", fmt.Sprintf("a send created at height %d executed at height %d (window %d..%d)", p.created, p.height, lo, p.height+R),
-				map[string]any{"raw": drv.Hex(raw), "height": p.height, "created": p.created})
+		outside := created > p.height+R || created < lo
+		noncePath := p.memo.memo == lib.RLPV2Indicator
+		if outside && after > before && !noncePath {
+			fo.fail("C06:out-of-window-tx-accepted:"+p.memo.name, fmt.Sprintf("a send (key %s, memo kind %s = %q) created at height %d executed at height %d (window %d..%d)", p.scheme, p.memo.name, p.memo.memo, created, p.height, lo, p.height+R),
+				map[string]any{"raw": drv.Hex(raw), "height": p.height, "created": created, "memo": p.memo.memo, "scheme": p.scheme})
 		}
+		side := "inside"
 		if outside {
-			o.Count("window:outside")
-		} else {
-			o.Count("window:inside")
+			side = "outside"
 		}
+		res := "rejected"
+		if after > before {
+			res = "executed"
+		}
+		o.Count("window:" + p.memo.name + ":" + side + ":" + res)
 		o.Nontrivial(s.id)
 		s.c.close()
 	}
